@@ -346,3 +346,13 @@ def run(ctx):
         idok = any("explicit_id" in norm(a.value) and "uuid" in norm(a.value) for a in assignments_to(sp, "actor_id") if hasattr(a, "value"))
         c.ob("R7", idok, sp, "id-scheme", "child id is '<parent>:<explicit id>' or '<parent>:<key>:<uuid>'" if idok else
              "the child id scheme no longer distinguishes explicit ids from generated ones", sp.node)
+
+
+
+_run_before_iter_rule = run
+
+
+def run(ctx):
+    _run_before_iter_rule(ctx)
+    # ---- R17 bookkeeping containers are not resized while they are iterated ------------------------------------
+    shared.no_mutation_while_iterating(ctx, "R17", ("base_interpreter", "interpreter", "sync_interpreter", "task_manager"), lambda t: any(k in t for k in ('actor', 'registry', '_system')))
